@@ -25,6 +25,10 @@ echo "demo exit with patch: $rc1 (want != 0); without: $rc2 (want 0)"
 git apply $patch || exit 2
 scratch=$(mktemp -d /tmp/sv-$id-XXXX)
 trap 'rm -rf $scratch' EXIT
+# the demonstration (untracked files of the worktree) is not part of the change: set it aside while the checks run
+mkdir -p $scratch/demo
+(cd $wt && git ls-files --others --exclude-standard -z | xargs -0 -r cp --parents -t $scratch/demo && git clean -fdq)
+trap 'cp -r $scratch/demo/. $wt/; rm -rf $scratch' EXIT
 rsync -a --exclude out --exclude .git --exclude seeded /verif/ $scratch/verif/
 cd $scratch/verif
 export GOCACHE=/verif/out/gocache
